@@ -1082,7 +1082,7 @@ class H5DataV3(DataSet):
         def transform(flags, keep):
             """Use flagmask to blank out the flags we don't want."""
             # Then convert uint8 to bool -> if any flag bits set, flag is set
-            return np.bool_(np.bitwise_and(self._flags_select, flags))
+            return np.bool_(np.bitwise_and(self._flags_select[0], flags))
         extract = LazyTransform('extract_flags', transform, dtype=bool)
         return self._vislike_indexer(self._flags, extract)
 
